@@ -314,6 +314,11 @@ fn judge_rec2(case: &Case, wild: bool, l: &mut Local) {
             }
             let honest = moved.iter().enumerate().all(|(i, p)| (residual2(&curve, &(a.transform() * p)) - a.residuals()[i]).abs() <= 1e-9);
             l.check("2D: reported residuals equal the distances of the moved points", "", honest && a.residuals().len() == moved.len(), mk, String::new);
+            let mean2 = a.residuals().iter().sum::<f64>() / a.residuals().len() as f64;
+            if a.residuals().iter().any(|r| *r > 1e-9) && a.residuals().iter().any(|r| *r < -1e-9) {
+                l.bucket("2D result with residuals of both signs");
+            }
+            l.check("the average residual is the mean of the reported residuals", "2D", (a.avg_residual() - mean2).abs() <= 1e-12 * (1.0 + mean2.abs()), mk, || format!("{} vs {}", a.avg_residual(), mean2));
             let start = verif_observe_points_to_curve(&moved, &curve, &guess, &[]);
             let (s0, s1): (f64, f64) = (start.1.iter().map(|r| r * r).sum(), a.residuals().iter().map(|r| r * r).sum());
             l.check("2D: residual sum of squares is not larger than at the starting guess", "", s1 <= s0 + 1e-12, mk, || format!("{} vs {} at the start", s1, s0));
@@ -371,6 +376,8 @@ fn judge_rec3(case: &Case, wild: bool, l: &mut Local) {
             }
             let honest = moved.iter().enumerate().all(|(i, p)| residual3_ok(&mesh, &(a.transform() * p), case.mode, a.residuals()[i]));
             l.check("3D: reported residuals equal the mode-specific distances of the moved points", "", honest && a.residuals().len() == moved.len(), mk, String::new);
+            let mean3 = a.residuals().iter().sum::<f64>() / a.residuals().len() as f64;
+            l.check("the average residual is the mean of the reported residuals", "3D", (a.avg_residual() - mean3).abs() <= 1e-12 * (1.0 + mean3.abs()), mk, || format!("{} vs {}", a.avg_residual(), mean3));
             let start = verif_observe_points_to_mesh(&moved, &mesh, &guess, mode(), &[]);
             let (s0, s1): (f64, f64) = (start.1.iter().map(|r| r * r).sum(), a.residuals().iter().map(|r| r * r).sum());
             l.check("3D: residual sum of squares is not larger than at the starting guess", "", s1 <= s0 + 1e-12, mk, || format!("{} vs {} at the start", s1, s0));
@@ -462,7 +469,7 @@ pub fn run(tier: Tier) -> i32 {
     let mut cx = Ctx::new("C07", tier, "model_checking");
     cx.rule = "MC: every set_params history of length <= 3 over a 5-vector alphabet (start, two small, two large moves) of the private 2D points-to-curve problem (3 reference curves x 2 initial guesses) and the 3D points-to-mesh problem (2 meshes x 2 distance modes), each compared with a fresh problem whose history is just the last element, residuals recomputed by brute force. EX: recovery of every displacement of the stated basin (2D: {-.05,0,.05}^2 x {0,+-3,+-10 deg}; 3D: {-.1,0,.1}^3 x {0, +-2 deg about x, y, z, (1,1,1)}; at most 5% of the smallest feature) x 2 initial guesses x sample densities x both DistModes on rectangle / L-shape / pentagon and box / L-prism; out-of-basin starts (25-40 deg) judged for residual honesty only; 'turned parts': displacements of 60-170 deg (2D) / 1.2-3 rad (3D) with translations, started from a guess within the basin of the exact answer, must be recovered. distinct = distinct cases".into();
     cx.bounds = json!({"history_len": 3, "alphabet": 5, "shifts2": shifts2().len(), "shifts3": shifts3().len(), "shifts3_subsampling": tier.pick(3, 1)});
-    cx.require(&["2D set_params history", "3D set_params history", "2D displacement inside the basin", "2D start outside the basin", "3D plane mode inside the basin", "3D point mode inside the basin", "3D start outside the basin", "2D turned part, guess near the answer", "3D turned part, guess near the answer", "3D open bracket, samples sliding off free edges"]);
+    cx.require(&["2D set_params history", "3D set_params history", "2D displacement inside the basin", "2D start outside the basin", "3D plane mode inside the basin", "3D point mode inside the basin", "3D start outside the basin", "2D turned part, guess near the answer", "3D turned part, guess near the answer", "3D open bracket, samples sliding off free edges", "2D result with residuals of both signs"]);
     cx.assume("basin: translations up to 5% of the smallest feature, rotations up to 10 deg (2D) / 2 deg (3D), guesses within 2 deg / 0.1; recovery judged at 1e-6 on matrix entries; plane-mode residuals may use any minimising face");
     let cs = cases(tier);
     let l = sweep(&cs, judge);
